@@ -146,7 +146,7 @@ theorem fieldSize {P : Params} (hP : P.valid = true) (S : Schema) (sd : SDesc) (
     (if fieldWritten sd f x = true then u8 f.ty.wire :: be16 f.id ++ refEnc S f.ty x else []).length := by
   rw [← skip_eq hP sd f x]
   simp only [Field.ok, Bool.and_eq_true, Bool.or_eq_true, beq_iff_eq] at hfok
-  obtain ⟨⟨hty, hptr⟩, _⟩ := hfok
+  obtain ⟨⟨⟨hty, hptr⟩, _⟩, _⟩ := hfok
   have hfh := (headers_eq hP).1
   have hsh := (headers_eq hP).2.2.2
   -- the generic "written" size
@@ -394,7 +394,7 @@ theorem sizeFields_eq {P : Params} (hP : P.valid = true) (S : Schema) (hS : S.ok
     simp only [hasTyFields, Bool.and_eq_true] at ht
     have ih := sizeFields_eq hP S hS xr sd fr (fun g hg => hok g (List.mem_cons_of_mem _ hg)) ht.2
     have hfok := hok f (List.mem_cons_self ..)
-    have hty : f.ty.ok = true := by simp only [Field.ok, Bool.and_eq_true] at hfok; exact hfok.1.1
+    have hty : f.ty.ok = true := by simp only [Field.ok, Bool.and_eq_true] at hfok; exact hfok.1.1.1
     have one := fieldSize hP S sd f x hfok ht.1 (fun hs => sizeFunc_eq hP S hS x f.ty hty ht.1 hs)
     simp only [fixedLenFieldSize, sizeVarFields, refEncFields, List.length_append, ← one, ← ih]
     omega
